@@ -53,39 +53,43 @@ OPT_DEFAULT_B = {"Plain": (0, 128, False, True), "Opt": (0, 128, False, True), "
 
 BVAR = ("var", (32, 112, True, True))
 BNUG = ("nug", (4, 48, True, True))
-BLEN = ("len", (16, 192, True, True))
+BLEN = ("len", (16, 320, True, True))
 BOPT = ("opt", (72, 120, True, True))
 BANIS = ("anis", (24, 96, True, True))
+# TPL models: keep the optimiser away from len_scale -> 0 / len_low -> inf where var_factor degenerates
+BTPL = (("len", (16, 512, True, True)), ("opt", (0, 512, True, True)))
 
 ALL_SILL = [("none", 0), ("true", 0), ("false", 0), ("val", 128), ("val", 64), ("val", -64)]
 
 
 def jobs_for(tier):
-    """(name, dict) list.  dict: cls, real, dim, dirs, latlon, sills, anis kinds, bounds variants, extras."""
+    """(name, dict) list.  dict: cls, real, dim, dirs, latlon, sills, anis kinds, bounds variants
+    (each a tuple of (argument, bounds) that differ from the defaults), errors."""
     thorough = tier == "thorough"
+    some = [("none", 0), ("false", 0), ("val", 128), ("val", 64)]
     js = []
     js.append(("Plain1", dict(cls="Plain", real="Gaussian", dim=1, dirs=[False], latlon=False, sills=ALL_SILL,
-                              anis=["fit", "off"], bnds=[None, BVAR, BNUG, BLEN], errors=True)))
+                              anis=["fit", "off"], bnds=[(), (BVAR,), (BNUG,), (BLEN,)], errors=True)))
     js.append(("Plain2", dict(cls="Plain", real="Exponential", dim=2, dirs=[False, True], latlon=False,
                               sills=ALL_SILL, anis=["fit", "off", "fix"],
-                              bnds=[None, BVAR, BNUG] + ([BANIS, BLEN] if thorough else []))))
+                              bnds=[(), (BVAR,), (BNUG,)] + ([(BANIS,), (BLEN,), (BVAR, BNUG)] if thorough else []))))
     js.append(("Plain3", dict(cls="Plain", real="Gaussian" if thorough else "Exponential", dim=3, dirs=[True],
                               latlon=False, sills=ALL_SILL if thorough else [("none", 0), ("false", 0), ("val", 128)],
-                              anis=["fit", "off", "fix"], bnds=[None, BANIS] if thorough else [None])))
+                              anis=["fit", "off", "fix"], bnds=[(), (BANIS,)] if thorough else [()])))
     js.append(("PlainLL", dict(cls="Plain", real="Exponential", dim=3, dirs=[False, True], latlon=True,
-                               sills=ALL_SILL, anis=["fit", "off"], bnds=[None, BVAR])))
+                               sills=ALL_SILL, anis=["fit", "off"], bnds=[(), (BVAR,)])))
     js.append(("Opt2", dict(cls="Opt", real="Stable", dim=2, dirs=[False, True], latlon=False,
-                            sills=ALL_SILL if thorough else [("none", 0), ("false", 0), ("val", 128), ("val", 64)],
+                            sills=ALL_SILL if thorough else some,
                             anis=["fit", "off", "fix"] if thorough else ["fit", "off"],
-                            bnds=[None, BOPT, BVAR] + ([BNUG] if thorough else []))))
+                            bnds=[(), (BOPT,)] + ([(BVAR,), (BNUG,)] if thorough else []))))
     js.append(("TPL2", dict(cls="TPL", real="TPLGaussian", dim=2, dirs=[False, True] if thorough else [False],
-                            latlon=False,
-                            sills=ALL_SILL if thorough else [("none", 0), ("false", 0), ("val", 128), ("val", 64)],
-                            anis=["fit", "off"], bnds=[None, BNUG] + ([BVAR] if thorough else []))))
+                            latlon=False, sills=ALL_SILL if thorough else some,
+                            anis=["fit", "off"],
+                            bnds=[BTPL, BTPL + (BNUG,)] + ([BTPL + (BVAR,)] if thorough else []))))
     if thorough:
         js.append(("Opt3", dict(cls="Opt", real="Stable", dim=3, dirs=[True], latlon=False,
                                 sills=[("none", 0), ("false", 0), ("val", 128)], anis=["fit", "off", "fix"],
-                                bnds=[None])))
+                                bnds=[()])))
     return js
 
 
@@ -128,8 +132,8 @@ def mc_module(name, job, maxev=1, candev=None):
     bsets = []
     for bv in job["bnds"]:
         d = dict(defb)
-        if bv is not None:
-            d[bv[0]] = bv[1]
+        for arg, bb in bv:
+            d[arg] = bb
         bsets.append(_rec({k: _b(v) for k, v in d.items()}))
     sel = {
         "var": ['S("fit", 0)', 'S("off", 0)', 'S("fix", %d)' % FIXV["var"], 'S("fix", 0)'],
@@ -189,6 +193,12 @@ class _Cache(dict):
         if v is None:
             v = self[text] = tlaval.parse(text)
         return v
+
+
+def parse_pre(block):
+    """state right after PrePara -> (configuration, ideal alternatives)"""
+    sv = split_state(block)
+    return tlaval.parse(sv["cfg"]), [dict(a) for a in _thaw(tlaval.parse(sv["ialts"]))]
 
 
 def read_dump(path):
@@ -618,6 +628,8 @@ def _short_call(call):
 
 def impl_diff(c, cend, call):
     """difference between the real outcome and the code-shaped transcription (drift level)"""
+    if cend["st"] == "nofit":
+        return None
     if cend["st"] != "ok":
         return None if call.st in ("error", "other") else "status"
     if call.st != "ok":
@@ -669,10 +681,10 @@ def _adv_chunk(task):
         sv = split_state(blk)
         c = cache.get_parsed(sv["cfg"])
         cp = cache.get_parsed(sv["cp"])
-        evs, popt = tlaval.parse(sv["evs"]), tlaval.parse(sv["popt"])
-        iends = [dict(e) for e in _thaw(tlaval.parse(sv["iends"]))]
+        evs, popt = cache.get_parsed(sv["evs"]), cache.get_parsed(sv["popt"])
+        iends = [dict(e) for e in _thaw(cache.get_parsed(sv["iends"]))]
         cend = cache.get_parsed(sv["cend"])
-        disc = sorted(tlaval.parse(sv["disc"]))
+        disc = sorted(cache.get_parsed(sv["disc"]))
         para, fanis = cp["para"], cp["fanis"]
         alt = (lo + out["n"]) % 6
         kwargs = build_kwargs(c, alt)
@@ -905,8 +917,42 @@ def _pub_fx(p, c):
             "anis": [fx(a) for a in p["anis"]]}
 
 
+def _floats_of(c, call, evs):
+    vals = set()
+    for a, b in c["bnd"].items():
+        vals.update(q2f(b[k]) for k in ("lo", "hi"))
+    vals.update(q2f(v) for v in c["pre"].values() if not isinstance(v, list))
+    vals.update(q2f(v) for v in c["pre"]["anis"])
+    vals.update(q2f(s["v"]) for s in c["sel"].values())
+    vals.update(q2f(v) for v in c["anis"]["v"])
+    sills = {q2f(c["sill"]["v"])}
+    for v in (c["pre"]["var"], c["sel"]["var"]["v"]):
+        for n in (c["pre"]["nug"], c["sel"]["nug"]["v"]):
+            sills.add(q2f(v) + q2f(n))
+    vals |= sills
+    for s in sills:   # thresholds of the derived nugget / variance
+        vals.update(s - q2f(c["bnd"]["nug"][k]) for k in ("lo", "hi"))
+    for seq in (call.lo, call.hi, call.p0, call.popt):
+        vals.update(seq or [])
+    for p in [call.ready, call.final, call.ret] + [e[3] for e in evs]:
+        if p:
+            vals.update(p[k] for k in ("var", "len", "nug", "opt"))
+            vals.update(p["anis"] or [])
+    for e in evs:
+        vals.update(e[0])
+    return {v for v in vals if v == v and abs(v) != float("inf")}
+
+
 def trace_record(c, call, tail=5):
-    """recorded run -> record for TraceFit (fixed point)"""
+    """recorded run -> record for TraceFit (fixed point); None when the floats of the run are not
+    represented faithfully (range, or two distinct floats with the same image)"""
+    evs0 = call.evals
+    j0 = max(0, len(evs0) - tail)
+    while j0 > 0 and (evs0[j0][1] or evs0[j0][2]):
+        j0 -= 1
+    vals = _floats_of(c, call, evs0[j0:])
+    if any(abs(v) >= 4096 for v in vals) or len({tuple(fx(v)) for v in vals}) != len(vals):
+        return None
     r = {"cfg": cfg_fx(c), "called": call.called, "st": call.st}
     dummy = _pub_fx({"var": 0.0, "len": 0.0, "nug": 0.0, "opt": 0.0, "anis": [0.0] * (c["dim"] - 1)}, c)
     r["lo"] = [fx(v) for v in (call.lo or [])]
@@ -938,11 +984,11 @@ def _scipy_chunk(task):
     col = _Collect()
     out = dict(n=0, nontrivial=set(), samples=[], edges={}, viol_keys={}, aux=[], traces=[], nfev=0)
     for i in idxs:
-        c, ialts = pres[i]
+        c, ialts = parse_pre(pres[i])
         x, _y, _t = data_for(c, job["real"], 0)
         opts, desc, which = numeric_options(i, c, x)
-        kwargs = build_kwargs(c, i % 6)
-        kwargs.update(opts)
+        kwargs = dict(opts)
+        kwargs.update(build_kwargs(c, i % 6))
         kwargs["return_r2"] = True
         call = Call(c, job["real"], kwargs, which).run(scipy_optimiser)
         out["n"] += 1
@@ -967,7 +1013,12 @@ def _scipy_chunk(task):
                                max(abs(call.final["var"] - t["var"]), abs(call.final["len"] - t["len"]),
                                    abs(call.final["nug"] - t["nug"])) if fitted_all else None))
         if c["cls"] != "TPL":
-            out["traces"].append((jname, i, trace_record(c, call)))
+            tr = trace_record(c, call)
+            if tr is None:
+                out["edges"]["(trace not representable in fixed point)"] = out["edges"].get(
+                    "(trace not representable in fixed point)", 0) + 1
+            else:
+                out["traces"].append((jname, i, tr))
         if len(out["samples"]) < 1 and call.called and call.st == "ok" and c["sill"]["k"] == "val":
             out["samples"].append({"mode": "scipy", "class": job["real"], "call": _kw_str(kwargs),
                                    "curve_evaluations": len(call.evals), "optimum": call.popt,
@@ -1035,6 +1086,8 @@ def run(pid, tier, seed, replay=None):
     ]
     if replay:
         return _replay(replay)
+    import gstools  # noqa: F401  (before forking the workers)
+
     thorough = tier == "thorough"
     jobs = jobs_for(tier)
     nproc = 14
@@ -1045,19 +1098,19 @@ def run(pid, tier, seed, replay=None):
             mod, cfg = mc_module("MC_" + name, job, maxev=1)
             sc.write("MC_%s.tla" % name, mod)
             tjobs.append((("mc", name), sc, "MC_" + name, cfg,
-                          dict(workers=4, dump=("states", sc.path("D_" + name)), timeout=2400, heap="6g")))
+                          dict(workers=2, dump=("states", sc.path("D_" + name)), timeout=2400, heap="4g")))
         # any finite sequence of evaluations: two evaluations with the full candidate sets, no dump
         for name, job in jobs:
-            if name not in ("Plain2", "TPL2", "Opt2") and not thorough:
+            if name not in ("Plain2", "TPL2") and not thorough:
                 continue
             j2 = dict(job)
             if not thorough:
-                j2["bnds"] = job["bnds"][:3]
                 j2["dirs"] = job["dirs"][:1]
-            mod, cfg = mc_module("EV2_" + name, j2, maxev=2, candev=CANDEV2)
+                j2["anis"] = job["anis"][:1]
+            mod, cfg = mc_module("EV2_" + name, j2, maxev=2, candev=CANDEV2 if thorough else CANDEV)
             sc.write("EV2_%s.tla" % name, mod)
-            tjobs.append((("ev2", name), sc, "EV2_" + name, cfg, dict(workers=4, timeout=2400, heap="6g")))
-        results = tlc.run_many(tjobs, parallel=4)
+            tjobs.append((("ev2", name), sc, "EV2_" + name, cfg, dict(workers=2, timeout=2400, heap="4g")))
+        results = tlc.run_many(tjobs, parallel=7)
         print("TLC: %d jobs in %.1fs" % (len(tjobs), time.time() - t0))
         for (kind, name), r in sorted(results.items()):
             tlc.must_pass(r, "%s %s" % (kind, name))
@@ -1068,16 +1121,11 @@ def run(pid, tier, seed, replay=None):
         # ---- read the dumps
         t0 = time.time()
         ends, pres = {}, {}
-        cache = _Cache()
         for name, _job in jobs:
-            blocks = read_dump(sc.path("D_" + name) + ".dump")
+            # TLC writes states in a worker dependent order: sort for reproducibility
+            blocks = sorted(read_dump(sc.path("D_" + name) + ".dump"))
             ends[name] = [b for b in blocks if 'phase = "done"' in b]
-            pre = []
-            for b in blocks:
-                if "evs = <<>>" in b and 'phase = "start"' not in b:
-                    sv = split_state(b)
-                    pre.append((cache.get_parsed(sv["cfg"]), [dict(a) for a in _thaw(tlaval.parse(sv["ialts"]))]))
-            pres[name] = pre
+            pres[name] = [b for b in blocks if "evs = <<>>" in b and 'phase = "start"' not in b]
         n_end = sum(len(v) for v in ends.values())
         n_cfg = sum(len(v) for v in pres.values())
         print("dump: %d end states, %d configurations (%.1fs)" % (n_end, n_cfg, time.time() - t0))
@@ -1163,7 +1211,7 @@ def run(pid, tier, seed, replay=None):
             for rid, tv in verdicts.items():
                 validated += 1
                 jname, i, _rec_ = part[rid - 1]
-                c = pres[jname][i][0]
+                c = parse_pre(pres[jname][i])[0]
                 for t in tv["edge"]:
                     tv_edge[t] = tv_edge.get(t, 0) + 1
                 for t in tv["impl"]:
@@ -1172,7 +1220,7 @@ def run(pid, tier, seed, replay=None):
                     rep.drift_msg("recorded run differs from the code-shaped transcription in %s (%s %s)"
                                   % (sorted(tv["impl"]), jname, _cfg_str(c)))
                 if tv["ideal"]:
-                    tag = sorted(tv["ideal"])[0]
+                    tag = sorted(tv["ideal"], key=lambda t: (not t.startswith("error"), not t.startswith("model"), t))[0]
                     tv_ideal[tag] = tv_ideal.get(tag, 0) + 1
                     obs = observable_name(tag, c)
                     real = dict(jobs)[jname]["real"]
@@ -1232,7 +1280,7 @@ def _replay(path):
     else:
         x, _y, _t = data_for(c, rp["real"], 0)
         opts, desc, which = numeric_options(rp["index"], c, x)
-        kwargs.update(opts)
+        kwargs = dict(opts, **kwargs)
         kwargs["return_r2"] = True
         call = Call(c, rp["real"], kwargs, which).run(scipy_optimiser)
         print("  options", desc, "curve evaluations", len(call.evals), "optimum", call.popt)
